@@ -2,6 +2,7 @@ package main
 
 import (
 	"go/types"
+	"reflect"
 
 	"golang.org/x/tools/go/ssa"
 )
@@ -105,4 +106,195 @@ func (in *Interp) rtypeOf(t types.Type) Value {
 	}
 	rp := in.L.prog.ImportedPackage("reflect")
 	return Iface{T: types.NewPointer(rp.Type("rtype").Type()), V: p}
+}
+
+// ---------- the further operations used by parseFields / checkUnmarshal ----------
+
+func kindOf(t types.Type) reflect.Kind {
+	switch u := t.Underlying().(type) {
+	case *types.Basic:
+		switch u.Kind() {
+		case types.Bool:
+			return reflect.Bool
+		case types.Int:
+			return reflect.Int
+		case types.Int8:
+			return reflect.Int8
+		case types.Int16:
+			return reflect.Int16
+		case types.Int32:
+			return reflect.Int32
+		case types.Int64:
+			return reflect.Int64
+		case types.Uint:
+			return reflect.Uint
+		case types.Uint8:
+			return reflect.Uint8
+		case types.Uint16:
+			return reflect.Uint16
+		case types.Uint32:
+			return reflect.Uint32
+		case types.Uint64:
+			return reflect.Uint64
+		case types.Uintptr:
+			return reflect.Uintptr
+		case types.Float32:
+			return reflect.Float32
+		case types.Float64:
+			return reflect.Float64
+		case types.String:
+			return reflect.String
+		case types.UnsafePointer:
+			return reflect.UnsafePointer
+		}
+	case *types.Pointer:
+		return reflect.Pointer
+	case *types.Struct:
+		return reflect.Struct
+	case *types.Slice:
+		return reflect.Slice
+	case *types.Array:
+		return reflect.Array
+	case *types.Map:
+		return reflect.Map
+	case *types.Interface:
+		return reflect.Interface
+	case *types.Signature:
+		return reflect.Func
+	case *types.Chan:
+		return reflect.Chan
+	}
+	return reflect.Invalid
+}
+
+func rtypeArg(v Value) types.Type {
+	switch x := v.(type) {
+	case *Value:
+		return (*x).(*Opaque).Fields["t"].(typeBox).t
+	case Iface:
+		return (*x.V.(*Value)).(*Opaque).Fields["t"].(typeBox).t
+	}
+	panic(abort("reflect model: not a type"))
+}
+
+// visibleFields mirrors reflect.VisibleFields for structs with at most one level of embedding by value.
+func (in *Interp) visibleFields(t types.Type, prefix []int, out *[]Value, sfType *types.Struct) {
+	st := t.Underlying().(*types.Struct)
+	for i := 0; i < st.NumFields(); i++ {
+		f := st.Field(i)
+		idx := append(append([]int{}, prefix...), i)
+		idxVals := make([]Value, len(idx))
+		for k, n := range idx {
+			idxVals[k] = mkBV(64, uint64(n))
+		}
+		pkgPath := ""
+		if !f.Exported() && f.Pkg() != nil {
+			pkgPath = f.Pkg().Path()
+		}
+		sf := in.zero(types.NewStruct(nil, nil)) // placeholder, replaced below
+		_ = sf
+		rec := make(Struct, sfType.NumFields())
+		for k := 0; k < sfType.NumFields(); k++ {
+			switch sfType.Field(k).Name() {
+			case "Name":
+				rec[k] = mkStr(f.Name())
+			case "PkgPath":
+				rec[k] = mkStr(pkgPath)
+			case "Type":
+				rec[k] = in.rtypeOf(f.Type())
+			case "Tag":
+				rec[k] = mkStr(st.Tag(i))
+			case "Offset":
+				rec[k] = mkBV(64, 0)
+			case "Index":
+				rec[k] = Slice{A: idxVals}
+			case "Anonymous":
+				rec[k] = mkBool(f.Embedded())
+			default:
+				rec[k] = in.zero(sfType.Field(k).Type())
+			}
+		}
+		*out = append(*out, rec)
+		if f.Embedded() {
+			et := f.Type()
+			if p, ok := et.Underlying().(*types.Pointer); ok {
+				et = p.Elem()
+			}
+			if _, ok := et.Underlying().(*types.Struct); ok {
+				if len(prefix) >= 1 {
+					panic(abort("reflect model: more than one level of embedding"))
+				}
+				if _, isPtr := f.Type().Underlying().(*types.Pointer); isPtr {
+					panic(abort("reflect model: embedding by pointer"))
+				}
+				in.visibleFields(et, idx, out, sfType)
+			}
+		}
+	}
+}
+
+func init() {
+	intrinsics["(*reflect.rtype).Kind"] = func(in *Interp, fn *ssa.Function, a []Value) Value {
+		return mkBV(64, uint64(kindOf(rtypeArg(a[0]))))
+	}
+	intrinsics["(*reflect.rtype).Implements"] = func(in *Interp, fn *ssa.Function, a []Value) Value {
+		t := rtypeArg(a[0])
+		u := rtypeArg(a[1])
+		it, ok := u.Underlying().(*types.Interface)
+		if !ok {
+			panic(goPanic{msg: "reflect: non-interface type passed to Type.Implements"})
+		}
+		return mkBool(in.implements(t, it))
+	}
+	intrinsics["reflect.VisibleFields"] = func(in *Interp, fn *ssa.Function, a []Value) Value {
+		t := rtypeArg(a[0])
+		if _, ok := t.Underlying().(*types.Struct); !ok {
+			panic(goPanic{msg: "reflect.VisibleFields of non-struct type"})
+		}
+		sfNamed := in.L.prog.ImportedPackage("reflect").Type("StructField").Type()
+		var out []Value
+		in.visibleFields(t, nil, &out, sfNamed.Underlying().(*types.Struct))
+		return Slice{A: out}
+	}
+	intrinsics["(reflect.StructTag).Lookup"] = func(in *Interp, fn *ssa.Function, a []Value) Value {
+		v, ok := reflect.StructTag(concStr(a[0])).Lookup(concStr(a[1]))
+		return Tuple{mkStr(v), mkBool(ok)}
+	}
+	intrinsics["(reflect.StructTag).Get"] = func(in *Interp, fn *ssa.Function, a []Value) Value {
+		return mkStr(reflect.StructTag(concStr(a[0])).Get(concStr(a[1])))
+	}
+	intrinsics["(reflect.Value).FieldByIndex"] = func(in *Interp, fn *ssa.Function, a []Value) Value {
+		rv := a[0].(RValue)
+		for _, iv := range a[1].(Slice).A {
+			i := int(iv.(Term).U)
+			st, ok := rv.T.Underlying().(*types.Struct)
+			if !ok || rv.Ptr == nil {
+				panic(abort("reflect model: FieldByIndex on a non-addressable or non-struct value"))
+			}
+			cell := (*rv.Ptr).(Struct)
+			rv = RValue{T: st.Field(i).Type(), V: cell[i], Ptr: &cell[i]}
+		}
+		return rv
+	}
+	intrinsics["(reflect.Value).Addr"] = func(in *Interp, fn *ssa.Function, a []Value) Value {
+		rv := a[0].(RValue)
+		if rv.Ptr == nil {
+			panic(goPanic{msg: "reflect.Value.Addr of unaddressable value"})
+		}
+		return RValue{T: types.NewPointer(rv.T), V: rv.Ptr}
+	}
+	intrinsics["(reflect.Value).IsNil"] = func(in *Interp, fn *ssa.Function, a []Value) Value {
+		rv := a[0].(RValue)
+		v := rv.V
+		if rv.Ptr != nil {
+			v = *rv.Ptr
+		}
+		return mkBool(isNilValue(v))
+	}
+	intrinsics["reflect.New"] = func(in *Interp, fn *ssa.Function, a []Value) Value {
+		t := rtypeArg(a[0])
+		p := new(Value)
+		*p = in.zero(t)
+		return RValue{T: types.NewPointer(t), V: p}
+	}
 }
